@@ -12,6 +12,8 @@ type gctx struct {
 	budget  int
 	unc     bool // allow an uncatchable statement
 	last    bool // generating the last statement of a list
+	dead    int  // >0: inside dead code following a direct break/continue of a script-mode list
+	allowDeadBranch bool
 }
 
 type scope struct {
@@ -35,7 +37,11 @@ func (g *gctx) ev() Stmt { g.nextEv++; return Stmt{K: "ev", N: g.nextEv} }
 func (g *gctx) abrupt(sc scope) Stmt {
 	r := g.r
 	for tries := 0; tries < 8; tries++ {
-		switch r.Pick(3, 3, 2, 2, 3, 4, 1) {
+		k := r.Pick(3, 3, 2, 2, 3, 4, 1)
+		if g.dead > 0 && k < 4 {
+			continue
+		}
+		switch k {
 		case 0:
 			if sc.inLoop {
 				return Stmt{K: "break"}
@@ -87,9 +93,19 @@ func (g *gctx) list(sc scope, depth int, max int) []Stmt {
 		n = 0
 	}
 	out := make([]Stmt, 0, n)
+	isDead := false
 	for i := 0; i < n; i++ {
 		g.last = i == n-1
-		out = append(out, g.stmt(sc, depth))
+		st := g.stmt(sc, depth)
+		out = append(out, st)
+		if !isDead && !g.fn && !g.allowDeadBranch && (st.K == "break" || st.K == "cont") {
+			// goja compiles the rest of the list in "dummy mode"; branches there are a recorded finding
+			isDead = true
+			g.dead++
+		}
+	}
+	if isDead {
+		g.dead--
 	}
 	return out
 }
@@ -185,7 +201,7 @@ func (g *gctx) body(sc scope, depth int) Stmt {
 }
 
 func genProg(r *vh.Rng) *Case {
-	g := &gctx{r: r, fn: r.Chance(60), budget: 6 + r.Intn(22), unc: r.Chance(12)}
+	g := &gctx{r: r, fn: r.Chance(60), budget: 6 + r.Intn(22), unc: r.Chance(12), allowDeadBranch: r.Chance(3)}
 	c := &Case{Kind: "prog", Fn: g.fn}
 	depth := 1 + r.Pick(1, 2, 3, 4, 4)
 	c.Prog = g.list(scope{}, depth, 3)
